@@ -140,6 +140,21 @@ theorem C09_admits (ops : List (ChainOp × Form)) (pk : Option Atom) (soft : Opt
       simp only [missingWhere, Bool.false_eq_true, if_false, if_true, List.length_append, List.length_singleton]
       simp; omega
 
+/-- BLOCKS also on a REUSED statement: after a condition-free query on the same statement (its soft-delete filter and
+    marker are still there) a condition-free Update/Delete is rejected — scoped or Unscoped -/
+theorem C09_blocks_after_query (ops : List (ChainOp × Form)) (soft : Option Atom) (unscoped : Bool)
+    (h : ∀ p ∈ ops, effective p.2 = false) :
+    missingWhere false (guardStateAfterQuery ops none soft unscoped) = true := by
+  have hc : effCount ops = 0 := by
+    simp only [effCount, List.length_eq_zero_iff, List.filter_eq_nil_iff]
+    intro p hp; simp [h p hp]
+  have hl := C09_where_length ops
+  rw [hc] at hl
+  have hnil : chainExprs ops = [] := List.eq_nil_of_length_eq_zero hl
+  cases soft with
+  | none => simp [guardStateAfterQuery, hnil, missingWhere]
+  | some f => cases unscoped <;> simp [guardStateAfterQuery, hnil, missingWhere, softDeleteModify]
+
 /-- AllowGlobalUpdate (config or session) switches the guard off -/
 theorem C09_allow_global (s : WhereState) : missingWhere true s = false := by simp [missingWhere]
 
